@@ -1036,4 +1036,112 @@ theorem timed_run {Tok : Type} [DecidableEq Tok] (C : Crypto Tok) (ops : List (O
   | nil => exact h
   | cons op ops ih => exact ih _ (timed_step C n op h)
 
+/-! ### Crawl.values -/
+
+theorem mem_dedup (l seen : List Nat) (x : Nat) : x ∈ dedup seen l ↔ x ∈ l ∧ x ∉ seen := by
+  induction l generalizing seen with
+  | nil => simp [dedup]
+  | cons a t ih =>
+    simp only [dedup]
+    by_cases hc : seen.contains a = true
+    · simp only [hc, if_true]
+      rw [ih]
+      have ha : a ∈ seen := by simpa using hc
+      constructor
+      · rintro ⟨h1, h2⟩; exact ⟨List.mem_cons_of_mem _ h1, h2⟩
+      · rintro ⟨h1, h2⟩
+        rcases List.mem_cons.mp h1 with rfl | h1
+        · exact absurd ha h2
+        · exact ⟨h1, h2⟩
+    · have ha : a ∉ seen := by simpa using hc
+      simp only [hc]
+      simp only [Bool.false_eq_true, if_false, List.mem_cons]
+      rw [ih]
+      constructor
+      · rintro (rfl | ⟨h1, h2⟩)
+        · exact ⟨Or.inl rfl, ha⟩
+        · exact ⟨Or.inr h1, fun h => h2 (List.mem_cons_of_mem _ h)⟩
+      · rintro ⟨h1 | h1, h2⟩
+        · exact Or.inl h1
+        · by_cases e : x = a
+          · exact Or.inl e
+          · right
+            refine ⟨h1, ?_⟩
+            intro h
+            rcases List.mem_cons.mp h with h | h
+            · exact e h
+            · exact h2 h
+
+theorem nodup_dedup (l seen : List Nat) : (dedup seen l).Nodup := by
+  induction l generalizing seen with
+  | nil => simp [dedup]
+  | cons a t ih =>
+    simp only [dedup]
+    split
+    · exact ih seen
+    · rw [List.nodup_cons]
+      refine ⟨?_, ih _⟩
+      intro h
+      have := ((mem_dedup t (a :: seen) a).mp h).2
+      exact this (List.mem_cons_self ..)
+
+theorem mem_interleave (f : Nat) : ∀ (ls : List (List Nat)), (∀ l ∈ ls, l.length ≤ f) →
+    ∀ x, x ∈ interleave f ls ↔ ∃ l ∈ ls, x ∈ l := by
+  induction f with
+  | zero =>
+    intro ls hl x
+    simp only [interleave, List.not_mem_nil, false_iff]
+    rintro ⟨l, hm, hx⟩
+    have := hl l hm
+    have : l = [] := List.eq_nil_of_length_eq_zero (by omega)
+    subst this; simp at hx
+  | succ f ih =>
+    intro ls hl x
+    simp only [interleave]
+    have hfilt : ∀ l, l ∈ ls.filter (fun l => !l.isEmpty) ↔ l ∈ ls ∧ l ≠ [] := by
+      intro l; simp [List.mem_filter, List.isEmpty_iff]
+    split
+    · rename_i hemp
+      simp only [List.not_mem_nil, false_iff]
+      rintro ⟨l, hm, hx⟩
+      have hne : l ≠ [] := by intro e; subst e; simp at hx
+      have : l ∈ ls.filter (fun l => !l.isEmpty) := (hfilt l).mpr ⟨hm, hne⟩
+      have he : ls.filter (fun l => !l.isEmpty) = [] := by simpa [List.isEmpty_iff] using hemp
+      rw [he] at this; simp at this
+    · have htl : ∀ t ∈ (ls.filter (fun l => !l.isEmpty)).map List.tail, t.length ≤ f := by
+        intro t ht
+        obtain ⟨l, hlm, rfl⟩ := List.mem_map.mp ht
+        have := hl l ((hfilt l).mp hlm).1
+        simp only [List.length_tail]; omega
+      rw [List.mem_append, ih _ htl x]
+      constructor
+      · rintro (h | ⟨t, ht, hx⟩)
+        · obtain ⟨l, hlm, hh⟩ := List.mem_filterMap.mp h
+          refine ⟨l, ((hfilt l).mp hlm).1, ?_⟩
+          cases l with
+          | nil => simp at hh
+          | cons a t => simp at hh; subst hh; exact List.mem_cons_self ..
+        · obtain ⟨l, hlm, rfl⟩ := List.mem_map.mp ht
+          exact ⟨l, ((hfilt l).mp hlm).1, List.mem_of_mem_tail hx⟩
+      · rintro ⟨l, hm, hx⟩
+        cases l with
+        | nil => simp at hx
+        | cons a t =>
+          have hlm : (a :: t) ∈ ls.filter (fun l => !l.isEmpty) := (hfilt _).mpr ⟨hm, by simp⟩
+          rcases List.mem_cons.mp hx with rfl | hx
+          · left; exact List.mem_filterMap.mpr ⟨_, hlm, rfl⟩
+          · right; exact ⟨t, List.mem_map.mpr ⟨_, hlm, rfl⟩, hx⟩
+
+theorem le_foldl_max (ls : List Nat) (init : Nat) : init ≤ ls.foldl Nat.max init ∧ ∀ a ∈ ls, a ≤ ls.foldl Nat.max init := by
+  induction ls generalizing init with
+  | nil => simp
+  | cons b t ih =>
+    simp only [List.foldl_cons]
+    obtain ⟨h1, h2⟩ := ih (Nat.max init b)
+    refine ⟨Nat.le_trans (Nat.le_max_left ..) h1, ?_⟩
+    intro a ha
+    rcases List.mem_cons.mp ha with rfl | ha
+    · exact Nat.le_trans (Nat.le_max_right ..) h1
+    · exact h2 a ha
+
 end Ipv8.C15
